@@ -82,17 +82,33 @@ pub struct SvgCfg {
     pub order: u8,
 }
 
-fn set_color<B: Builder>(b: &mut B, which: u8, c: &ColorSpec) {
-    match (which, c) {
-        (0, ColorSpec::Rgb(x)) => { b.module_color(*x); }
-        (0, ColorSpec::Rgba(x)) => { b.module_color(*x); }
-        (0, ColorSpec::Css(x)) => { b.module_color(x.as_str()); }
-        (1, ColorSpec::Rgb(x)) => { b.background_color(*x); }
-        (1, ColorSpec::Rgba(x)) => { b.background_color(*x); }
-        (1, ColorSpec::Css(x)) => { b.background_color(x.as_str()); }
-        (_, ColorSpec::Rgb(x)) => { b.image_background_color(*x); }
-        (_, ColorSpec::Rgba(x)) => { b.image_background_color(*x); }
-        (_, ColorSpec::Css(x)) => { b.image_background_color(x.as_str()); }
+/// `via` selects the documented conversion into `Color` that is used: 0 arrays / &str, 1 slices / String,
+/// 2 Vec<u8> / String - all must give the same colour
+fn set_color<B: Builder>(b: &mut B, which: u8, c: &ColorSpec, via: u8) {
+    macro_rules! set {
+        ($v:expr) => {
+            match which {
+                0 => {
+                    b.module_color($v);
+                }
+                1 => {
+                    b.background_color($v);
+                }
+                _ => {
+                    b.image_background_color($v);
+                }
+            }
+        };
+    }
+    match (c, via % 3) {
+        (ColorSpec::Rgb(x), 0) => set!(*x),
+        (ColorSpec::Rgb(x), 1) => set!(&x[..]),
+        (ColorSpec::Rgb(x), _) => set!(x.to_vec()),
+        (ColorSpec::Rgba(x), 0) => set!(*x),
+        (ColorSpec::Rgba(x), 1) => set!(&x[..]),
+        (ColorSpec::Rgba(x), _) => set!(x.to_vec()),
+        (ColorSpec::Css(x), 0) => set!(x.as_str()),
+        (ColorSpec::Css(x), _) => set!(x.clone()),
     }
 }
 
@@ -125,6 +141,8 @@ impl SvgCfg {
                     for (si, col) in &self.layers {
                         match col {
                             None => { b.shape(SHAPES[*si]); }
+                            Some(ColorSpec::Rgb(x)) if self.order & 64 != 0 => { b.shape_color(SHAPES[*si], x.to_vec()); }
+                            Some(ColorSpec::Rgba(x)) if self.order & 64 != 0 => { b.shape_color(SHAPES[*si], &x[..]); }
                             Some(ColorSpec::Rgb(x)) => { b.shape_color(SHAPES[*si], *x); }
                             Some(ColorSpec::Rgba(x)) => { b.shape_color(SHAPES[*si], *x); }
                             Some(ColorSpec::Css(x)) => { b.shape_color(SHAPES[*si], x.as_str()); }
@@ -133,12 +151,12 @@ impl SvgCfg {
                 }
                 2 => {
                     if let Some(c) = &self.module_color {
-                        set_color(b, 0, c);
+                        set_color(b, 0, c, self.order >> 2);
                     }
                 }
                 3 => {
                     if let Some(c) = &self.background {
-                        set_color(b, 1, c);
+                        set_color(b, 1, c, self.order >> 3);
                     }
                 }
                 4 => {
@@ -148,7 +166,7 @@ impl SvgCfg {
                 }
                 5 => {
                     if let Some(c) = &self.image_bg_color {
-                        set_color(b, 2, c);
+                        set_color(b, 2, c, self.order >> 4);
                     }
                 }
                 6 => {
@@ -313,6 +331,12 @@ pub fn image_string() -> BoxedStrategy<String> {
         Just("x".to_string()),
         "[ -~]{0,40}",
         "[ -~éü中]{1,24}",
+        // references that consist only of letters, digits, '/' and '+' (extension-less hashed paths, bare tokens),
+        // in lengths that are and are not multiples of four
+        "[a-zA-Z0-9+/]{20,48}",
+        ("[a-z]{3,8}", "[a-z]{3,8}", "[0-9a-f]{16,40}").prop_map(|(a, b, h)| format!("{}/{}/{}", a, b, h)),
+        ("[0-9a-f]{24,44}").prop_map(|h| format!("/srv/media/{}", h)),
+        "[A-Za-z0-9+/]{22,30}={0,2}",
     ];
     (base, proptest::collection::vec((special, any::<u16>()), 0..4))
         .prop_map(|(mut s, ins)| {
